@@ -64,7 +64,21 @@ func mkDeposits(e *L2Env, n int) []pendingDeposit {
 func (c *c06) step(e *L2Env, m *c06Model, d pendingDeposit, sender sim.Account, isExec bool, path []string) {
 	run := c.run
 	before := e.L2.Dump()
-	res := e.L2.Deliver(e.DepositMsg(sender, d.seq, d.from, d.toStr, d.denom, math.NewInt(d.amount), nil))
+	msg := e.DepositMsg(sender, d.seq, d.from, d.toStr, d.denom, math.NewInt(d.amount), nil)
+	if d.seq < m.next {
+		// a replay need not repeat the original content: whatever it says, it must change nothing
+		switch (len(path) + int(d.seq)) % 4 {
+		case 1:
+			msg = e.DepositMsg(sender, d.seq, d.from, d.toStr, fmt.Sprintf("unseen%d", len(path)), math.NewInt(d.amount+1), nil) // a denom never registered
+		case 2:
+			msg.BaseDenom = "uconflict"
+			msg.To = e.Users[5].String()
+		case 3:
+			msg.Data = []byte{1, 2, 3}
+			msg.Amount.Amount = math.NewInt(d.amount * 3)
+		}
+	}
+	res := e.L2.Deliver(msg)
 	run.Evaluations++
 	after := e.L2.Dump()
 	tr := append(append([]string(nil), path...), fmt.Sprintf("deliver(seq=%d by=%s) with next=%d -> %s %s", d.seq, sender.Name, m.next, res.Class, res.ErrString()))
@@ -186,6 +200,8 @@ func checkC06(run *mon.Run, rng *mon.Rand, thorough bool) {
 	run.Extra["memoised_depth"] = deep
 	run.Extra["memoised_nodes"] = c.nodes
 	run.Sample(map[string]interface{}{"schedule_symbols": "seq<k><sender A|B|r>:class", "example": "1A:inorder 1B:stale 3A:ahead 2r:stranger 2B:inorder"})
+
+	c06Reentrant(run)
 
 	// ---- long random schedules ----
 	runs := pick(thorough, 4, 40)
@@ -329,6 +345,92 @@ func c06Random(run *mon.Run, rng *mon.Rand, length int, sample bool) {
 		run.Sample(map[string]interface{}{"random_schedule_prefix": tail(log, 25)})
 	}
 	run.Distinct(fmt.Sprintf("random/%d/%d", m.next, len(log)))
+}
+
+// c06Reentrant: the hook payload of deposit N is itself a transaction, signed by an authorised executor, that
+// finalizes a deposit (the same sequence N again, or N+1). Every sequence must still be credited exactly once.
+func c06Reentrant(run *mon.Run) {
+	run.Declare("C06.reentrant_hook_exactly_once", 4)
+	for _, inner := range []string{"same", "next", "stale", "ahead"} {
+		e := newL2Env(L2EnvOpts{})
+		deps := mkDeposits(e, 6)
+		c := &c06{run: run, deps: deps, stranger: sim.NewAccount("stranger0")}
+		m := &c06Model{next: 1, credited: map[string]int64{}}
+		exA, exB := e.Executors[0], e.Executors[1]
+		// executor B needs an account on L2 to sign: fund it with a native token
+		e.L2.Fund(exB.Addr, sdk.NewCoin("unative", math.NewInt(10)))
+		path := []string{"reentrant-" + inner}
+		c.step(e, m, deps[0], exA, true, path) // sequence 1 the ordinary way
+		c.step(e, m, deps[1], exA, true, path) // sequence 2
+		// sequence 3 carries a hook: a tx by executor B finalizing ...
+		d := deps[2]
+		var in pendingDeposit
+		switch inner {
+		case "same":
+			in = deps[2]
+		case "next":
+			in = deps[3]
+		case "stale":
+			in = deps[0]
+		default:
+			in = deps[5]
+		}
+		n, s, _ := e.L2.AccNumSeq(exB.Addr)
+		innerMsg := e.DepositMsg(exB, in.seq, in.from, in.toStr, in.denom, math.NewInt(in.amount), nil)
+		bz, err := e.L2.SignTx(exB, n, s, sim.L2ChainID, 2_000_000, innerMsg)
+		if err != nil {
+			panic(err)
+		}
+		res := e.L2.DeliverGas(50_000_000, e.DepositMsg(exA, d.seq, d.from, d.toStr, d.denom, math.NewInt(d.amount), bz))
+		run.Evaluations++
+		tr := append(path, fmt.Sprintf("deliver(seq=3 by A, hook = tx by executor B finalizing seq %d) -> %s %s", in.seq, res.Class, res.ErrString()))
+		run.Check("C06.reentrant_hook_exactly_once", res.Class == sim.OK, "c06.reentrant_failed", tr, "deposit with a finalizing hook failed: %s", res.ErrString())
+		if res.Class != sim.OK {
+			continue
+		}
+		// model: 3 is processed; the inner one is processed iff it is sequence 4 (the next one while the hook runs)
+		m.next = 4
+		if inner != "ahead" {
+			m.credited[d.toStr+"/"+e.L2Denom(d.denom)] += d.amount
+		} // an inner message ahead of the sequence fails, so the hook fails and deposit 3 is refunded, not credited
+		if inner == "next" {
+			m.next = 5
+			m.credited[in.toStr+"/"+e.L2Denom(in.denom)] += in.amount
+		}
+		m.events = nil
+		for i := uint64(1); i < m.next; i++ {
+			m.events = append(m.events, i)
+		}
+		seen := []uint64{1, 2}
+		for _, ev := range res.EventsOfType(opchildtypes.EventTypeFinalizeTokenDeposit) {
+			sq, _ := sim.Attr(ev, opchildtypes.AttributeKeyL1Sequence)
+			v, _ := strconv.ParseUint(sq, 10, 64)
+			seen = append(seen, v)
+		}
+		// each processed sequence announced exactly once (order of the two events inside one tx is not prescribed)
+		cnt := map[uint64]int{}
+		for _, v := range seen {
+			cnt[v]++
+		}
+		okEv := len(seen) == int(m.next-1)
+		for i := uint64(1); i < m.next; i++ {
+			if cnt[i] != 1 {
+				okEv = false
+			}
+		}
+		run.Check("C06.reentrant_hook_exactly_once", okEv, "c06.reentrant_events", tr, "finalize_token_deposit events announce sequences %v, expected each of 1..%d exactly once", seen, m.next-1)
+		run.Check("C06.reentrant_hook_exactly_once", e.NextL1Seq() == m.next, "c06.reentrant_next", tr, "next L1 sequence is %d after a finalizing hook, expected %d", e.NextL1Seq(), m.next)
+		for k, want := range m.credited {
+			parts := strings.SplitN(k, "/", 2)
+			addr, _ := sdk.AccAddressFromBech32(parts[0])
+			got := e.L2.BK.GetBalance(e.L2.Ctx, addr, parts[1]).Amount
+			run.Check("C06.reentrant_hook_exactly_once", got.Equal(math.NewInt(want)), "c06.reentrant_double_credit", tr, "recipient %s holds %s, expected %d: a sequence was credited twice or lost inside the hook", short(parts[0]), got, want)
+		}
+		run.Distinct("reentrant/" + inner)
+		// the following sequence is still processable in order
+		nd := deps[m.next-1]
+		c.step(e, m, nd, exA, true, tr)
+	}
 }
 
 func tail(s []string, n int) []string {
